@@ -36,6 +36,10 @@ CLAIMED = {
          "State = canonical deep hash of everything reachable from the path contexts, decoder context and package variables; every entry point at every position is a transition; successor must equal predecessor (closed 1-state graph => all histories); every executed write statement is probed against registered caller-owned memory; derived schemas are checked for container aliasing and mutation leaks.",
          "Writes inside hcl/cty/stdlib are covered by the value snapshot only; 16 append sites whose operand is a call result are not probed (they append to fresh copies).",
          "DESIGN.md §6 C04"),
+ "C05": ("model_checking", "stateless exploration of thread interleavings of the real code under a hand-written cooperative scheduler (complete product grid per query pair), write barrier + shared-state hash; race detector as sampling adjunct",
+         "For every pair of entry points on every collision world the complete product state space (pc1, pc2, H) at yield granularity (every function entry and write statement) is executed; invariants: no write to shared memory, shared-state hash constant at every yield of every solo run, each concurrent result equals the sequential one, nobody blocks.",
+         "Memory-model-level races below yield granularity are not decidable by this family here: only the free-running race-detector adjunct (sampling) looks at them. If the library starts importing sync, barrier hits degrade to exhaustive:false.",
+         "DESIGN.md §6 C05"),
  "C14": ("fault_enumeration", "bounded-exhaustive enumeration of files (AST as oracle) and of every subset of failing path readers",
          "Document symbols of every file compared one-to-one with an independent walk of the syntax tree; workspace symbols for worlds of 1..4 paths under every subset of unreadable / unlisted paths and every query substring.",
          "The hclsyntax tree is the oracle for what is written; the PathReader is ours and injects the faults.",
@@ -76,7 +80,7 @@ for pid in ALL:
 
 m = {
  "version": 1,
- "setup_cmd": "sh -c 'cd /verif && export GOFLAGS=-mod=mod GOPROXY=off GOSUMDB=off GOTOOLCHAIN=local GOCACHE=/verif/build/gocache && mkdir -p build evidence replays && go build -o build/vcheck ./cmd/vcheck'",
+ "setup_cmd": "sh -c 'cd /verif && export GOFLAGS=-mod=mod GOPROXY=off GOSUMDB=off GOTOOLCHAIN=local GOCACHE=/verif/build/gocache && mkdir -p build evidence replays && go build -o build/vcheck ./cmd/vcheck && go build -o build/vinstr ./cmd/vinstr && ./build/vinstr -out build/overlay && go build -tags verif -overlay build/overlay/overlay.json -o build/vcheck-instr ./cmd/vcheck && go build -race -o build/vcheck-race ./cmd/vcheck'",
  "hooks": {
   "guard": "verif",
   "enable": "no source hooks in /repo: instrumentation (map-order seam, yield points, write barrier) is generated at check time from the working tree and injected with `go build -tags verif -overlay /verif/build/overlay/overlay.json`",
